@@ -225,12 +225,43 @@ func registerModels(e *Engine) {
 		return inf
 	}
 
+	// The hex/decimal entropy heuristic of constant.Int.Ident only selects the
+	// notation; it is over-approximated by an unconstrained value in (0, 1], so
+	// both notations are explored for every value (DESIGN.md C09).  Its own
+	// crash-freedom is checked by a separate small-width harness that calls
+	// intEntropy directly.
+	// (Implemented as a fork over two representative constants rather than an
+	// unconstrained float, which keeps floating-point terms out of the queries:
+	// hex 0.05 / decimal 1.0 makes Ident choose u0x, hex 0.99 makes it choose
+	// decimal, whatever the digit count.)
+	ic["github.com/llir/llvm/ir/constant.hexEntropy"] = func(e *Engine, st *State, fr *Frame, in ssa.CallInstruction, a []Val) Val {
+		site := fmt.Sprintf("entropy#%d", st.siteCtr)
+		c := e.choose(st, site, 2)
+		st.siteCtr++
+		st.approx = true
+		if c == 0 {
+			return ConstF64(0.05)
+		}
+		return ConstF64(0.99)
+	}
+	ic["github.com/llir/llvm/ir/constant.decimalEntropy"] = func(e *Engine, st *State, fr *Frame, in ssa.CallInstruction, a []Val) Val {
+		return ConstF64(1.0)
+	}
 	registerBig(e)
 }
 
-// ---------- math/big.Int as SMT Int
+// ---------- math/big.Int as a wide two's-complement bit-vector
+//
+// A *big.Int is modelled as a signed bit-vector of bigW bits together with a
+// static bound on its magnitude in bits; an operation whose result could need
+// more than bigW-2 bits ends the path as a stated cut (never wraps silently).
+// Everything stays in the bit-vector theory, which the solver bit-blasts.
 
-func (e *Engine) bigGet(st *State, v Val) *Term {
+const bigW = 192
+
+func bigConst(v *big.Int) *Term { return ConstBVBig(bigW, v) }
+
+func (e *Engine) bigGetV(st *State, v Val) BigIntVal {
 	p := v.(PtrVal)
 	if p.obj == 0 {
 		abort("panic", "nil *big.Int")
@@ -240,15 +271,17 @@ func (e *Engine) bigGet(st *State, v Val) *Term {
 	}
 	switch x := st.hget(p.obj).(type) {
 	case BigIntVal:
-		return x.t
+		return x
 	case StructVal:
-		return ConstIntI(0) // zero value
+		return BigIntVal{t: bigConst(big.NewInt(0)), bits: 1}
 	}
 	abort("unsupported", "big.Int object of unexpected shape")
-	return nil
+	return BigIntVal{}
 }
 
-func (e *Engine) bigSet(st *State, v Val, t *Term) Val {
+func (e *Engine) bigGet(st *State, v Val) *Term { return e.bigGetV(st, v).t }
+
+func (e *Engine) bigSetV(st *State, v Val, t *Term, bits int) Val {
 	p := v.(PtrVal)
 	if p.obj == 0 {
 		abort("panic", "nil *big.Int")
@@ -256,52 +289,48 @@ func (e *Engine) bigSet(st *State, v Val, t *Term) Val {
 	if len(p.path) != 0 {
 		abort("unsupported", "big.Int embedded in a struct")
 	}
-	st.heap.set(p.obj, BigIntVal{t})
+	if bits > bigW-2 {
+		abort("cut", "big.Int value may exceed the %d-bit model width", bigW)
+	}
+	if x, ok := wideConst(t); ok {
+		bits = toSigned(x, bigW).BitLen() + 1
+	}
+	st.heap.set(p.obj, BigIntVal{t: t, bits: bits})
 	return p
-}
-
-func sbvToInt(t *Term) *Term {
-	w := t.s.W
-	if t.IsConst() {
-		return ConstIntI(sext64(t.c, w))
-	}
-	msb := Eq(Extract(w-1, w-1, t), ConstBV(1, 1))
-	return mk("ite", IntS, 0, 0, 0, "", msb, IntBin("-", BvToInt(t), ConstInt(new(big.Int).Lsh(big.NewInt(1), uint(w)))), BvToInt(t))
-}
-
-func iteInt(c, a, b *Term) *Term {
-	if c.IsConst() {
-		if c.c == 1 {
-			return a
-		}
-		return b
-	}
-	if a == b {
-		return a
-	}
-	return mk("ite", IntS, 0, 0, 0, "", c, a, b)
 }
 
 func pow(base int64, k int) *big.Int {
 	return new(big.Int).Exp(big.NewInt(base), big.NewInt(int64(k)), nil)
 }
 
+func bitsFor(base, digits int) int {
+	return pow(int64(base), digits).BitLen() + 1
+}
+
 const maxBigDigits = 48
 
-// bigText renders |v| in the given base: forks on the digit count, digits are
-// fresh byte variables tied to v by a defining constraint (unique solution).
-func (e *Engine) bigText(st *State, v *Term, base int) StrVal {
-	if v.IsConst() {
-		return constStr(v.bi.Text(base))
+func bigIsNeg(t *Term) *Term { return BvCmp("bvslt", t, bigConst(big.NewInt(0))) }
+
+// bigText renders v in the given base: forks on sign and digit count; for
+// base 16 the digits are nibbles of |v|, for other bases fresh digit bytes
+// tied to |v| by a defining constraint (unique solution).
+func (e *Engine) bigText(st *State, bv BigIntVal, base int) StrVal {
+	v := bv.t
+	if x, ok := wideConst(v); ok {
+		return constStr(toSigned(x, bigW).Text(base))
 	}
-	neg := e.decide(st, IntCmp("<", v, ConstIntI(0)))
+	neg := e.decide(st, bigIsNeg(v))
 	abs := v
 	if neg {
-		abs = IntNeg(v)
+		abs = BvNeg(v)
 	}
 	n := 0
 	for k := 1; k <= maxBigDigits; k++ {
-		if e.decide(st, IntCmp("<", abs, ConstInt(pow(int64(base), k)))) {
+		lim := pow(int64(base), k)
+		if lim.BitLen() > bigW-2 {
+			break
+		}
+		if e.decide(st, BvCmp("bvult", abs, bigConst(lim))) {
 			n = k
 			break
 		}
@@ -309,28 +338,68 @@ func (e *Engine) bigText(st *State, v *Term, base int) StrVal {
 	if n == 0 {
 		abort("cut", "big.Int.Text: more than %d digits", maxBigDigits)
 	}
-	// memoise the digit variables per (term, base) so that repeated Text calls
-	// on the same value share them
-	digs := make([]*Term, n)
-	sum := ConstIntI(0)
-	for i := 0; i < n; i++ { // digs[0] is the most significant
-		d := Var(fmt.Sprintf("dig!%d!%d!%d!%d", abs.id, base, n, i), BV(8))
-		digs[i] = d
-		sum = IntBin("+", sum, IntBin("*", BvToInt(d), ConstInt(pow(int64(base), n-1-i))))
-	}
-	c := Eq(sum, abs)
-	for _, d := range digs {
-		c = And(c, BvCmp("bvult", d, ConstBV(8, uint64(base))))
-	}
-	e.assumeDef(st, c)
+	const digitChars = "0123456789abcdefghijklmnopqrstuvwxyz"
 	var out []*Term
 	if neg {
 		out = append(out, ConstBV(8, '-'))
 	}
+	digs := make([]*Term, n) // digs[0] most significant, 8-bit values
+	if base == 16 {
+		for i := 0; i < n; i++ {
+			lo := 4 * (n - 1 - i)
+			digs[i] = ZExt(Extract(lo+3, lo, abs), 8)
+		}
+	} else if bitsFor(base, n) > 25 {
+		// Wide values: the decimal digits are over-approximated by fresh bytes
+		// constrained only to be digits (leading digit non-zero); the link to v
+		// is kept through the SetString(Text(v)) = v axiom below.  Sound for
+		// "holds" verdicts; a counterexample that depends on the digit values
+		// fails to replay natively and is reported as inconclusive.
+		e.models["big.Int.Text: digits of values of more than 7 decimal digits are abstract (only parse(print(v)) = v is kept)"]++
+		st.approx = true
+		c := True
+		for i := 0; i < n; i++ {
+			d := Var(fmt.Sprintf("dig!%d!%d!%d!%d", abs.id, base, n, i), BV(8))
+			digs[i] = d
+			c = And(c, BvCmp("bvult", d, ConstBV(8, uint64(base))))
+			if i == 0 && n > 1 {
+				c = And(c, Not(Eq(d, ConstBV(8, 0))))
+			}
+		}
+		e.assumeDef(st, c)
+	} else {
+		// functional digit extraction in the narrowest sufficient width:
+		// q0 = |v|, q(i+1) = q(i) / base, digit(i) = q(i) - base*q(i+1)
+		nw := bitsFor(base, n) + 1
+		if nw < 8 {
+			nw = 8
+		}
+		if nw > bigW {
+			nw = bigW
+		}
+		q := Extract(nw-1, 0, abs)
+		bc := ConstBVBig(nw, big.NewInt(int64(base)))
+		for i := n - 1; i >= 0; i-- {
+			qn := BvBin("bvudiv", q, bc)
+			d := BvBin("bvsub", q, BvBin("bvmul", qn, bc))
+			digs[i] = Extract(7, 0, d)
+			q = qn
+		}
+	}
+	var dchars []*Term
 	for _, d := range digs {
 		ch := Ite(BvCmp("bvult", d, ConstBV(8, 10)), BvBin("bvadd", d, ConstBV(8, '0')), BvBin("bvadd", d, ConstBV(8, 'a'-10)))
 		out = append(out, ch)
+		dchars = append(dchars, ch)
 	}
+	_ = digitChars
+	// model-level axiom of math/big (not code under test): parsing the text
+	// just rendered, in the same base, gives the rendered magnitude back
+	if e.textMemo == nil {
+		e.textMemo = map[string]BigIntVal{}
+	}
+	k, _ := symKey(StrVal{dchars})
+	e.textMemo[fmt.Sprintf("%d|%s", base, k)] = BigIntVal{t: abs, bits: bv.bits}
 	return StrVal{out}
 }
 
@@ -347,8 +416,9 @@ func (e *Engine) assumeDef(st *State, c *Term) {
 	st.model = nil
 }
 
+// digitVal returns the value of an ASCII digit (8 bits) and whether the byte
+// is a digit of the base.
 func digitVal(b *Term, base int) (val *Term, valid *Term) {
-	// value of an ASCII digit (as BV8) and whether it is a digit of the base
 	isDec := And(BvCmp("bvule", ConstBV(8, '0'), b), BvCmp("bvule", b, ConstBV(8, '9')))
 	val = BvBin("bvsub", b, ConstBV(8, '0'))
 	valid = isDec
@@ -364,66 +434,89 @@ func digitVal(b *Term, base int) (val *Term, valid *Term) {
 	return
 }
 
+func maxInt(a, b int) int {
+	if a > b {
+		return a
+	}
+	return b
+}
+
 func registerBig(e *Engine) {
 	ic := e.intercept
+	fromBV := func(t *Term, signed bool) (*Term, int) {
+		if signed {
+			return SExt(t, bigW), t.s.W + 1
+		}
+		return ZExt(t, bigW), t.s.W + 1
+	}
 	ic["math/big.NewInt"] = func(e *Engine, st *State, fr *Frame, in ssa.CallInstruction, a []Val) Val {
-		return PtrVal{obj: st.alloc(BigIntVal{sbvToInt(a[0].(*Term))})}
+		t, b := fromBV(a[0].(*Term), true)
+		if x, ok := wideConst(t); ok {
+			b = toSigned(x, bigW).BitLen() + 1
+		}
+		return PtrVal{obj: st.alloc(BigIntVal{t: t, bits: b})}
 	}
 	ic["(*math/big.Int).SetInt64"] = func(e *Engine, st *State, fr *Frame, in ssa.CallInstruction, a []Val) Val {
-		return e.bigSet(st, a[0], sbvToInt(a[1].(*Term)))
+		t, b := fromBV(a[1].(*Term), true)
+		return e.bigSetV(st, a[0], t, b)
 	}
 	ic["(*math/big.Int).SetUint64"] = func(e *Engine, st *State, fr *Frame, in ssa.CallInstruction, a []Val) Val {
-		return e.bigSet(st, a[0], BvToInt(a[1].(*Term)))
+		t, b := fromBV(a[1].(*Term), false)
+		return e.bigSetV(st, a[0], t, b)
 	}
 	ic["(*math/big.Int).Set"] = func(e *Engine, st *State, fr *Frame, in ssa.CallInstruction, a []Val) Val {
-		return e.bigSet(st, a[0], e.bigGet(st, a[1]))
+		x := e.bigGetV(st, a[1])
+		return e.bigSetV(st, a[0], x.t, x.bits)
 	}
-	bin := func(op string) interceptFn {
-		return func(e *Engine, st *State, fr *Frame, in ssa.CallInstruction, a []Val) Val {
-			return e.bigSet(st, a[0], IntBin(op, e.bigGet(st, a[1]), e.bigGet(st, a[2])))
-		}
+	ic["(*math/big.Int).Add"] = func(e *Engine, st *State, fr *Frame, in ssa.CallInstruction, a []Val) Val {
+		x, y := e.bigGetV(st, a[1]), e.bigGetV(st, a[2])
+		return e.bigSetV(st, a[0], BvBin("bvadd", x.t, y.t), maxInt(x.bits, y.bits)+1)
 	}
-	ic["(*math/big.Int).Add"] = bin("+")
-	ic["(*math/big.Int).Sub"] = bin("-")
-	ic["(*math/big.Int).Mul"] = bin("*")
+	ic["(*math/big.Int).Sub"] = func(e *Engine, st *State, fr *Frame, in ssa.CallInstruction, a []Val) Val {
+		x, y := e.bigGetV(st, a[1]), e.bigGetV(st, a[2])
+		return e.bigSetV(st, a[0], BvBin("bvsub", x.t, y.t), maxInt(x.bits, y.bits)+1)
+	}
+	ic["(*math/big.Int).Mul"] = func(e *Engine, st *State, fr *Frame, in ssa.CallInstruction, a []Val) Val {
+		x, y := e.bigGetV(st, a[1]), e.bigGetV(st, a[2])
+		return e.bigSetV(st, a[0], BvBin("bvmul", x.t, y.t), x.bits+y.bits)
+	}
 	ic["(*math/big.Int).Neg"] = func(e *Engine, st *State, fr *Frame, in ssa.CallInstruction, a []Val) Val {
-		return e.bigSet(st, a[0], IntNeg(e.bigGet(st, a[1])))
+		x := e.bigGetV(st, a[1])
+		return e.bigSetV(st, a[0], BvNeg(x.t), x.bits+1)
 	}
 	ic["(*math/big.Int).Lsh"] = func(e *Engine, st *State, fr *Frame, in ssa.CallInstruction, a []Val) Val {
+		x := e.bigGetV(st, a[1])
 		n := e.needInt(st, a[2], "Lsh count")
-		return e.bigSet(st, a[0], IntBin("*", e.bigGet(st, a[1]), ConstInt(pow(2, n))))
+		if x.bits+n > bigW-2 {
+			abort("cut", "big.Int.Lsh beyond the %d-bit model width", bigW)
+		}
+		return e.bigSetV(st, a[0], BvBin("bvshl", x.t, bigConst(big.NewInt(int64(n)))), x.bits+n)
 	}
 	ic["(*math/big.Int).Exp"] = func(e *Engine, st *State, fr *Frame, in ssa.CallInstruction, a []Val) Val {
 		x, y := e.bigGet(st, a[1]), e.bigGet(st, a[2])
 		if mp := a[3].(PtrVal); mp.obj != 0 {
 			abort("unsupported", "big.Int.Exp with modulus")
 		}
-		if !y.IsConst() {
-			abort("unsupported", "big.Int.Exp with symbolic exponent")
+		xc, okx := wideConst(x)
+		yc, oky := wideConst(y)
+		if !okx || !oky {
+			abort("unsupported", "big.Int.Exp with symbolic operands")
 		}
-		if y.bi.Sign() <= 0 {
-			return e.bigSet(st, a[0], ConstIntI(1))
+		xs, ys := toSigned(xc, bigW), toSigned(yc, bigW)
+		if ys.Sign() <= 0 {
+			return e.bigSetV(st, a[0], bigConst(big.NewInt(1)), 2)
 		}
-		if x.IsConst() {
-			return e.bigSet(st, a[0], ConstInt(new(big.Int).Exp(x.bi, y.bi, nil)))
-		}
-		if y.bi.Cmp(big.NewInt(16)) > 0 {
-			abort("unsupported", "big.Int.Exp: symbolic base with exponent > 16")
-		}
-		r := ConstIntI(1)
-		for i := int64(0); i < y.bi.Int64(); i++ {
-			r = IntBin("*", r, x)
-		}
-		return e.bigSet(st, a[0], r)
+		r := new(big.Int).Exp(xs, ys, nil)
+		return e.bigSetV(st, a[0], bigConst(r), r.BitLen()+1)
 	}
 	ic["(*math/big.Int).Cmp"] = func(e *Engine, st *State, fr *Frame, in ssa.CallInstruction, a []Val) Val {
 		x, y := e.bigGet(st, a[0]), e.bigGet(st, a[1])
-		return Ite(IntCmp("<", x, y), ConstBV(64, ^uint64(0)), Ite(IntCmp(">", x, y), ConstBV(64, 1), ConstBV(64, 0)))
+		return Ite(BvCmp("bvslt", x, y), ConstBV(64, ^uint64(0)), Ite(BvCmp("bvslt", y, x), ConstBV(64, 1), ConstBV(64, 0)))
 	}
 	ic["(*math/big.Int).Sign"] = func(e *Engine, st *State, fr *Frame, in ssa.CallInstruction, a []Val) Val {
 		x := e.bigGet(st, a[0])
-		z := ConstIntI(0)
-		return Ite(IntCmp("<", x, z), ConstBV(64, ^uint64(0)), Ite(IntCmp(">", x, z), ConstBV(64, 1), ConstBV(64, 0)))
+		z := bigConst(big.NewInt(0))
+		return Ite(BvCmp("bvslt", x, z), ConstBV(64, ^uint64(0)), Ite(BvCmp("bvslt", z, x), ConstBV(64, 1), ConstBV(64, 0)))
 	}
 	ic["(*math/big.Int).Bit"] = func(e *Engine, st *State, fr *Frame, in ssa.CallInstruction, a []Val) Val {
 		x := e.bigGet(st, a[0])
@@ -431,22 +524,22 @@ func registerBig(e *Engine) {
 		if i < 0 {
 			abort("panic", "negative bit index")
 		}
-		// two's complement bit: floor(x / 2^i) mod 2 (SMT div/mod are Euclidean)
-		q := IntBin("mod", IntBin("div", x, ConstInt(pow(2, i))), ConstIntI(2))
-		return Ite(Eq(q, ConstIntI(1)), ConstBV(64, 1), ConstBV(64, 0))
+		if i >= bigW {
+			i = bigW - 1 // sign bit (two's complement)
+		}
+		return ZExt(Extract(i, i, x), 64)
 	}
 	ic["(*math/big.Int).Int64"] = func(e *Engine, st *State, fr *Frame, in ssa.CallInstruction, a []Val) Val {
-		return IntToBv(e.bigGet(st, a[0]), 64)
+		return Extract(63, 0, e.bigGet(st, a[0]))
 	}
 	ic["(*math/big.Int).Uint64"] = ic["(*math/big.Int).Int64"]
 	ic["(*math/big.Int).IsInt64"] = func(e *Engine, st *State, fr *Frame, in ssa.CallInstruction, a []Val) Val {
 		x := e.bigGet(st, a[0])
-		lim := pow(2, 63)
-		return And(IntCmp(">=", x, ConstInt(new(big.Int).Neg(lim))), IntCmp("<", x, ConstInt(lim)))
+		return Eq(SExt(Extract(63, 0, x), bigW), x)
 	}
 	ic["(*math/big.Int).IsUint64"] = func(e *Engine, st *State, fr *Frame, in ssa.CallInstruction, a []Val) Val {
 		x := e.bigGet(st, a[0])
-		return And(IntCmp(">=", x, ConstIntI(0)), IntCmp("<", x, ConstInt(pow(2, 64))))
+		return Eq(ZExt(Extract(63, 0, x), bigW), x)
 	}
 	ic["(*math/big.Int).Text"] = func(e *Engine, st *State, fr *Frame, in ssa.CallInstruction, a []Val) Val {
 		p := a[0].(PtrVal)
@@ -454,14 +547,14 @@ func registerBig(e *Engine) {
 			return constStr("<nil>")
 		}
 		base := e.needInt(st, a[1], "Text base")
-		return e.bigText(st, e.bigGet(st, a[0]), base)
+		return e.bigText(st, e.bigGetV(st, a[0]), base)
 	}
 	ic["(*math/big.Int).String"] = func(e *Engine, st *State, fr *Frame, in ssa.CallInstruction, a []Val) Val {
 		p := a[0].(PtrVal)
 		if p.obj == 0 {
 			return constStr("<nil>")
 		}
-		return e.bigText(st, e.bigGet(st, a[0]), 10)
+		return e.bigText(st, e.bigGetV(st, a[0]), 10)
 	}
 	ic["(*math/big.Int).SetString"] = func(e *Engine, st *State, fr *Frame, in ssa.CallInstruction, a []Val) Val {
 		s := a[1].(StrVal)
@@ -484,20 +577,33 @@ func registerBig(e *Engine) {
 		if len(b) == 0 {
 			return fail
 		}
+		if bitsFor(base, len(b)) > bigW-2 {
+			abort("cut", "big.Int.SetString: literal of %d digits exceeds the %d-bit model width", len(b), bigW)
+		}
+		if e.textMemo != nil {
+			k, _ := symKey(StrVal{b})
+			if m, ok := e.textMemo[fmt.Sprintf("%d|%s", base, k)]; ok {
+				t := m.t
+				if neg {
+					t = BvNeg(t)
+				}
+				return TupleVal{[]Val{e.bigSetV(st, a[0], t, m.bits+1), True}}
+			}
+		}
 		valid := True
-		sum := ConstIntI(0)
-		for i, ch := range b {
+		sum := bigConst(big.NewInt(0))
+		for _, ch := range b {
 			dv, ok := digitVal(ch, base)
 			valid = And(valid, ok)
-			sum = IntBin("+", sum, IntBin("*", BvToInt(dv), ConstInt(pow(int64(base), len(b)-1-i))))
+			sum = BvBin("bvadd", BvBin("bvmul", sum, bigConst(big.NewInt(int64(base)))), ZExt(dv, bigW))
 		}
 		if !e.decide(st, valid) {
 			return fail
 		}
 		if neg {
-			sum = IntNeg(sum)
+			sum = BvNeg(sum)
 		}
-		return TupleVal{[]Val{e.bigSet(st, a[0], sum), True}}
+		return TupleVal{[]Val{e.bigSetV(st, a[0], sum, bitsFor(base, len(b))), True}}
 	}
 
 	// math/big.Float: an abstract box around a float64 (see DESIGN C10)
